@@ -251,6 +251,21 @@ func Build(s Spec, o *Obs, newMetrics func() service.ServiceMetrics) func() {
 				}
 				cl.Close()
 				finish(cl)
+			case "client-rst", "client-rst-late":
+				// an authenticated client that uploads and then resets its connection (before / after the
+				// target has everything); the target answers only once it has seen the end of the upload
+				co.Want, co.WantAuth = "", true
+				wire = world.EncodeStream(key, seed, world.Addr(okDst), upPayload)
+				cl := world.Dial(from)
+				cl.Send(wire, 0)
+				if cs.Class == "client-rst-late" {
+					vrt.Sleep(time.Second)
+				}
+				if cl.C != nil {
+					cl.C.SetLinger(0)
+				}
+				cl.Close()
+				finish(cl)
 			case "replay-client":
 				co.Want = "ERR_REPLAY_CLIENT"
 				// same seed as connection 0 (class ok, same cipher) => same salt
